@@ -5,7 +5,23 @@ go 1.23
 require (
 	github.com/alibaba/RedisShake v0.0.0
 	github.com/garyburd/redigo v1.6.2
+	github.com/vinllen/redis-go-cluster v1.0.1-0.20200724054240-c957918bbc61
 	pgregory.net/rapid v1.3.0
+)
+
+require (
+	github.com/FZambia/go-sentinel v0.0.0-20171204085413-76bd05e8e22f // indirect
+	github.com/beorn7/perks v1.0.0 // indirect
+	github.com/cupcake/rdb v0.0.0-20161107195141-43ba34106c76 // indirect
+	github.com/golang/protobuf v1.3.2-0.20190517061210-b285ee9cfc6c // indirect
+	github.com/gugemichael/nimo4go v0.0.0-20190904073057-32795d80f83a // indirect
+	github.com/matttproud/golang_protobuf_extensions v1.0.2-0.20181231171920-c182affec369 // indirect
+	github.com/nightlyone/lockfile v0.0.0-20180618180623-0ad87eef1443 // indirect
+	github.com/prometheus/client_golang v1.0.1-0.20190617182757-3d8379da8fc2 // indirect
+	github.com/prometheus/client_model v0.0.0-20190129233127-fd36f4220a90 // indirect
+	github.com/prometheus/common v0.6.0 // indirect
+	github.com/prometheus/procfs v0.0.3-0.20190614152826-90b65b633401 // indirect
+	gopkg.in/natefinch/lumberjack.v2 v2.0.0-20170531160350-a96e63847dc3 // indirect
 )
 
 replace github.com/alibaba/RedisShake => /repo/src
